@@ -36,21 +36,23 @@ HOOK_COMMITS = []
 UNCLAIMED = {}
 
 PROPS = {
-    "C12": {
-        "coq_targets": ["Run/C12.v"],
-        "gen": [],
-        "classes": {},
-        "level_text": "",
-        "level_note": "",
-        "claimed": False,
-    },
     "C04": {
-        "coq_targets": ["Run/C04.v"],
+        "coq_targets": ["Props/C04.v", "Run/C04.v"],
+        "audit": "Audit/C04.v",
         "gen": [],
         "classes": {},
-        "level_text": "",
-        "level_note": "",
-        "claimed": False,
+        "level_text": "Unbounded Coq theorems over the model of cursor/offset resolution and reporting: an offset is accepted iff it denotes 0 <= begin <= end <= len (resource level, relative to a parent selection, and through FindText::textselection), for every pair of cursors of either alignment and every nesting depth (C04_chain_inside by induction on the chain); the text of an accepted range is exactly its codepoints (byte slicing through any consistent index = codepoint slicing); every reported offset has well-formed cursors, the requested alignment and re-resolves to the same range in all four modes. Tied to the code by exhaustive depth-1/depth-2 and random deeper correspondence through annotate(), text(), textselections(), FindText::textselection and Selector::offset_with_mode.",
+        "level_note": "Trusted: Coq kernel, extraction, driver, harness, transcriptions Model/Offset.v and Model/Utf8.v (checked by execution). isize/usize overflow (isize::MIN.abs()) not modelled. Print Assumptions: closed under the global context.",
+        "assumptions": ["positions fit in usize/isize (no overflow)", "parents of relative offsets are well-formed selections inside the text (proved inductively: C04_chain_inside)"],
+    },
+    "C12": {
+        "coq_targets": ["Props/C12.v", "Run/C12.v"],
+        "audit": "Audit/C12.v",
+        "gen": [],
+        "classes": {},
+        "level_text": "Unbounded Coq theorems over the model of create_milestones / utf8byte / utf8byte_to_charpos / the position-index update of inserted() and the relative variants on sub-selections: under any consistent index the conversions are exact for every position 0..=len, reject positions beyond the text and bytes inside a character, never panic; milestones for any interval (0 included) are consistent and every inserted annotation keeps the index consistent, so every reachable index is; two consistent indices answer identically (knob independence: milestone_interval and prior annotations; shrink_to_fit has no observable in the model). Tied to the code by correspondence over mixed-width texts, every position and byte offset, intervals {0,1,2,3,7,100} x shrink on/off x before/after annotations, on resources and sub-selections (utf8byte, utf8byte_to_charpos, text, text_by_offset).",
+        "level_note": "Trusted: Coq kernel, extraction, driver, harness, transcription Model/Utf8.v (checked by execution); Rust str::char_indices and String byte slicing; the pointer arithmetic of subslice_utf8_offset is modelled as the byte position of the selection's begin. Print Assumptions: closed under the global context.",
+        "assumptions": ["UTF-8 encoding lengths of scalar values as in clen (1-4 bytes)"],
     },
     "C08": {
         "coq_targets": ["Props/C08.v", "Run/C08.v"],
